@@ -125,10 +125,16 @@ def check_queries(sess, ctx, q, i, all_pages=None):
             ctx.add("C16", "market_lists_unknown", i, "market query returned a listing that is not stored as such: id %s" % l["id"])
         elif not open_offer(o, src):
             ctx.add("C16", "listed_but_unpurchasable", i, "market query lists %s which is %s / exp %s at %s" % (l["id"], src["status"], src["exp"], o["time_ns"]))
-    if all_pages:
+    pages_ok = sorted(set(e["page"] for e in answered))
+    run = 0
+    while run + 1 in pages_ok:
+        run += 1
+    short_tail = any(e["page"] <= run and len(e["r"]["ok"]) < 20 for e in answered)
+    if all_pages or short_tail:
+        # pages 1..k were all answered and one of them is not full: together they hold the whole market
         want = sorted(int(l["id"]) for l in o["listings"] if open_offer(o, l))
-        got = sorted(int(l["id"]) for l in listed)
-        if want != got and len(o["listings"]) <= 20 * max(all_pages):
+        got = sorted(set(int(l["id"]) for l in listed))
+        if want != got and (short_tail or len(o["listings"]) <= 20 * max(all_pages)):
             ctx.add("C16", "market_incomplete", i, "market pages list %r, purchasable are %r" % (got, want))
     for e in q["whitelist"]:
         if "ok" not in e["r"]:
